@@ -315,14 +315,14 @@ def judge_path(s, J, op, res, degenerate):
 # ---------------------------------------------------------------------- quiescence
 
 def ample_knobs(s, op, plan):
+    """Quiescence means an ample budget: the budgets are fixed here and cannot be set (or
+    shrunk) by the plan; only the schedule knobs and the tolerance come from the plan."""
     k = dict(op.get("knobs") or {})
     solver = s.solver_name
     inner = B.INNER_BUDGET.get(solver)
-    k.setdefault("max_iter", {"FISTA": 30000, "LBFGS": 3000, "GramCD": 5000,
-                              "PDCD_WS": 300}.get(solver, 200))
+    k["max_iter"] = {"FISTA": 30000, "LBFGS": 3000, "GramCD": 5000, "PDCD_WS": 300}.get(solver, 200)
     if inner:
-        k.setdefault(inner, {"max_epochs": 3000, "max_pn_iter": 300}[inner]
-                     if solver != "PDCD_WS" else 5000)
+        k[inner] = 5000 if solver == "PDCD_WS" else {"max_epochs": 3000, "max_pn_iter": 300}[inner]
     return k
 
 
@@ -354,9 +354,17 @@ def run_quiesce(s, J, op, plan, degenerate, results, counts):
     if claimed:
         counts["claimed"] += 1
     gen = plan["data"].get("gen") or {}
+    frac = plan["family"].get("alpha_frac") or 0.0
+    quad_like = s.dname in (None, "Quadratic", "WeightedQuadratic", "QuadraticGroup",
+                            "QuadraticMultiTask", "Huber")
+    # bounded liveness is only demanded where convergence within the budget is beyond doubt:
+    # well-conditioned, non-degenerate, convex, curvature bounded below (quadratic-like losses;
+    # logistic only when the regularisation keeps the solution away from infinity)
     easy = (gen.get("rho", 1) <= 0.9 and gen.get("scale_decades", 9) <= 1.0 and not degenerate
-            and bool(pr.absX.any(axis=0).all())
-            and pr.pen.convex and s.dname not in ("SqrtQuadratic", "Pinball", "Poisson", "Gamma", "Cox"))
+            and bool(pr.absX.any(axis=0).all()) and pr.pen.convex
+            and (quad_like or (s.dname in ("Logistic", "LogisticGroup") and frac >= 0.1
+                               and not res["fi"]))
+            and tol >= 1e-9)
     gscale = plan["family"].get("alpha_max_rm") or 0.0
     if op.get("liveness", True) and easy and not claimed and gscale > 0 and tol >= 1e-6 * gscale \
             and s.solver_name in B.C01_SOLVERS | {"FISTA"} and s.solver_name != "LBFGS":
@@ -421,6 +429,7 @@ def judge_optimum(s, J, pr, res, w, b, tol, warm, op):
                         detail=dict(P=float(P), P_ref=float(Pz), margin=float(margin), tol=tol,
                                     dist=dist, stop_crit=res["stop_crit"]),
                         feat=J.feat(res, dict(gap=float(P - Pz), rel_gap=float((P - Pz) / (1 + abs(Pz))),
+                                              has_zero_columns=bool((~pr.absX.any(axis=0)).any()),
                                               gap_over_margin=float((P - Pz) / margin) if margin > 0
                                               else float("inf"), criterion=crit,
                                               cert_ratio=_cert_ratio(pr, w, b, tol)))))
@@ -475,7 +484,9 @@ def judge_critical(s, J, pr, res, w, b, tol, claimed, plan):
                             feat=J.feat(res, dict(ratio=alpha / amax))))
         elif not nz:
             # unpenalised part must be optimal: gradient of the loss w.r.t. it within tol
-            cert = pr.certificate(w, b, criterion="subdiff")
+            ccrit = crit if crit in ("subdiff", "fixpoint") else "subdiff"
+            cert = pr.certificate(w, b, criterion=ccrit,
+                                  curv="local" if s.solver_name == "ProxNewton" else "global")
             bound = tol * (1 + REL) + cert["allowance"] + J.drift_allow(pr, res, w, b)
             if cert["value"] > bound and s.solver_name in B.C01_SOLVERS:
                 out.append(dict(prop=["C16"], oracle="unpenalised_part_optimal",
